@@ -200,7 +200,8 @@ def guarded(seconds=30.0):
 
             def on_alarm(*_):
                 state["fired"] += 1
-                raise Hang()
+                if state["fired"] >= 3:      # one firing may be a long garbage collection; a loop is still there a second later
+                    raise Hang()
 
             try:
                 old = signal.signal(signal.SIGVTALRM, on_alarm)
